@@ -29,6 +29,8 @@ type MachineProvider interface {
 
 	StatesList() []fsm.State
 
+	FinStatesList() []fsm.State
+
 	IsFinState(state fsm.State) bool
 }
 
@@ -123,6 +125,19 @@ func Init(machines ...MachineProvider) *FSMPool {
 				p.states[state] = machineName
 			}
 
+		}
+	}
+
+	// Third iteration, finish states which are not an entry point of another machine
+	// (cancelled states) stay with their own machine, so a dump made in such state can be restored
+	for _, machine := range machines {
+		for _, state := range machine.FinStatesList() {
+			if state == fsm.StateGlobalDone {
+				continue
+			}
+			if _, exists := p.states[state]; !exists {
+				p.states[state] = machine.Name()
+			}
 		}
 	}
 
